@@ -48,6 +48,9 @@ func driveC13(t *testing.T, out *vEmitter) {
 	e := vNewEnv(t, vEnvCfg{oidc: true, redis: true, mod: func(o *options.Options) {
 		o.Cookie.Refresh = time.Hour
 		o.Providers[0].OIDCConfig.InsecureSkipNonce = true
+		// sign-out also tells the identity provider (a step that runs after the session was cleared, with whatever session
+		// the request could load)
+		o.Providers[0].BackendLogoutURL = vIssuer + "/logout?id_token_hint={id_token}"
 		o.InjectRequestHeaders = append(o.InjectRequestHeaders, options.Header{Name: "X-Forwarded-Access-Token",
 			Values: []options.HeaderValue{{ClaimSource: &options.ClaimSource{Claim: "access_token"}}}})
 	}})
